@@ -289,6 +289,10 @@ static ASMJIT_FAVOR_SIZE Error validate(InstDB::Mode mode, const BaseInst& inst,
           if (uint32_t(validation_flags & ValidationFlags::kEnableVirtRegs) == 0) {
             return make_error(Error::kIllegalVirtReg);
           }
+          // An id above the virtual range (Reg::kIdBad) names no register at all.
+          if (ASMJIT_UNLIKELY(!Operand::is_virt_id(reg_id))) {
+            return make_error(Error::kInvalidVirtId);
+          }
           reg_mask = 0xFFFFFFFFu;
         }
         break;
@@ -367,6 +371,9 @@ static ASMJIT_FAVOR_SIZE Error validate(InstDB::Mode mode, const BaseInst& inst,
             // yet, so we cannot predict the phys id.
             if (uint32_t(validation_flags & ValidationFlags::kEnableVirtRegs) == 0) {
               return make_error(Error::kIllegalVirtReg);
+            }
+            if (ASMJIT_UNLIKELY(!Operand::is_virt_id(base_id))) {
+              return make_error(Error::kInvalidVirtId);
             }
             reg_mask = 0xFFFFFFFFu;
           }
@@ -460,6 +467,9 @@ static ASMJIT_FAVOR_SIZE Error validate(InstDB::Mode mode, const BaseInst& inst,
           }
           else if (uint32_t(validation_flags & ValidationFlags::kEnableVirtRegs) == 0) {
             return make_error(Error::kIllegalVirtReg);
+          }
+          else if (ASMJIT_UNLIKELY(!Operand::is_virt_id(index_id))) {
+            return make_error(Error::kInvalidVirtId);
           }
 
           // Only used for implicit memory operands having 'seg:[reg]' form, so clear it.
